@@ -137,9 +137,16 @@ class BarrelList(list):
             self.lists[0].insert(index, item)
             self._balance_list(0)
         else:
-            list_idx, rel_idx = self._translate_index(index)
-            if list_idx is None:
-                raise IndexError()
+            len_self = len(self)
+            if index < 0:
+                index = max(index + len_self, 0)
+            if index >= len_self:
+                # like list.insert, anything at or past the end appends
+                # (_translate_index only resolves positions of existing items)
+                list_idx = len(self.lists) - 1
+                rel_idx = len(self.lists[list_idx])
+            else:
+                list_idx, rel_idx = self._translate_index(index)
             self.lists[list_idx].insert(rel_idx, item)
             self._balance_list(list_idx)
         return
